@@ -512,6 +512,19 @@ V({
     "trusted": VERUS_UNITS["V18"]["trusted"],
 })
 
+# --------------------------------------------------------------------------- V8
+V({
+    "id": "V8",
+    "title": "occurs_check_leaf: OccursCheck::{try_fold_free_placeholder_ty, try_fold_free_placeholder_const, try_fold_free_placeholder_lifetime, try_fold_inference_ty, try_fold_inference_const, try_fold_inference_lifetime, interner}, UniverseIndex::can_see",
+    "template": "v8_occurs_check.rs",
+    "assumptions": [
+        "V8: ena's table is abstract: a union-find view (class representative, value of each class) with the assumed contracts of probe_value, unioned, find, unify_var_value; InferenceTable::new_variable creates a fresh singleton class",
+        "V8: the bound-variable branch recurses through the generic fold driver (havoc; assumed to keep the check's parameters and to return closed terms, which the code asserts)",
+        "V8: derive(PartialOrd) on UniverseIndex is the order of `counter`; push_lifetime_outlives_goals as proved by V9; casts/constructors (to_ty, to_lifetime, to_const) are abstract",
+    ],
+    "trusted": ["ena", "chalk-ir fold driver"],
+})
+
 # ===========================================================================
 GLOBAL_ASSUMPTIONS = [
     "soundness of rustc+Kani's model of core/alloc and of CBMC; soundness of Verus and Z3",
